@@ -8,5 +8,5 @@ CONSTANTS
   PHeights = {}
   PAns = {}
   PPub = {}
-INVARIANTS ConformFF ConformCreate ConformTx ConformDone
+INVARIANTS SweepMaxIsConfigured SweepBudgetIsInputs SweepDeadlineIsInputs ConformFF ConformCreate ConformTx ConformDone
 CHECK_DEADLOCK TRUE
